@@ -174,6 +174,86 @@ def h_just(cs: List[int], variant: List[int]) -> bool:
     return vlib.untraced(_just_all, [int(c) for c in vlib.realize(cs)], int(vlib.realize(variant)[0]))
 
 
+# ---------------------------------------------------------------- the TAR field predicates (fixed-width header fields)
+
+from isla_formalizations.tar import TAR_GRAMMAR, LJUST_CROP_TAR_PREDICATE, RJUST_CROP_TAR_PREDICATE  # noqa: E402
+
+TAR_GRAPH = gg.GrammarGraph.from_grammar(TAR_GRAMMAR)
+TARKIND = int(os.environ.get("VERIF_TARKIND", "-1"))
+# (nonterminal, predicate, left-justified?, width, fill character, trailer that belongs to the field)
+TAR_FIELDS = [
+    ("<file_name>", LJUST_CROP_TAR_PREDICATE, True, 100, "\x00", ""),
+    ("<linked_file_name>", LJUST_CROP_TAR_PREDICATE, True, 100, "\x00", ""),
+    ("<checksum>", RJUST_CROP_TAR_PREDICATE, False, 8, "0", "\x00 "),
+    ("<file_size>", RJUST_CROP_TAR_PREDICATE, False, 12, "0", " "),
+    ("<uname>", LJUST_CROP_TAR_PREDICATE, True, 32, "\x00", ""),
+]
+_TAR_TREES = {}
+
+
+def _tar_field(kind, n, k) -> bool:
+    """n: length of the text part (n < 4: absolute; else width - 7 + n, i.e. width-3 .. width+3);
+    k: number of NULs appended (0, 1, 2, or what fills the field exactly -1 / +0 / +1)"""
+    nt, pred, left, width, fill, trailer = TAR_FIELDS[kind]
+    body = n if n < 4 else width - 7 + n
+    if k >= 3:
+        k = width - body + (k - 4)
+    if body < 0 or k < 0:
+        raise vlib.IgnoreAttempt()
+    if nt in ("<checksum>", "<file_size>"):
+        if k != 0 or body == 0:
+            raise vlib.IgnoreAttempt()
+        s = ("1234567" * 20)[:body] + trailer
+    else:
+        if body == 0 and (nt != "<linked_file_name>" or k == 0):
+            raise vlib.IgnoreAttempt()
+        s = ("ab" * 80)[:body] + "\x00" * k
+    key = (nt, s)
+    if key not in _TAR_TREES:
+        try:
+            _TAR_TREES[key] = vlib.parse_tree(TAR_GRAMMAR, s, start=nt)
+        except SyntaxError:
+            _TAR_TREES[key] = None
+    t = _TAR_TREES[key]
+    if t is None:
+        raise vlib.IgnoreAttempt()
+    what = "%s(%s tree of %d characters, %d, %r)" % (pred.name, nt, len(s), width, fill)
+    try:
+        res = pred.evaluate(TAR_GRAPH, t, width, fill).result
+    except Exception as e:
+        raise AssertionError("%s raised %s: %s" % (what, type(e).__name__, str(e)[:100]))
+    holds = len(s) == width
+    if res is True:
+        if not holds:
+            raise AssertionError("%s = True although the argument has width %d" % (what, len(s)))
+        return True
+    if holds:
+        raise AssertionError("%s = %r although the argument already has the requested width" % (what, res))
+    if not isinstance(res, dict) or list(res.keys()) != [t]:
+        raise AssertionError("%s: expected a replacement for its argument, got %r" % (what, res))
+    r = res[t]
+    if left:
+        want = s.ljust(width, fill)[:width]
+    else:
+        padded = s.rjust(width, fill)
+        want = padded[len(padded) - width:]
+    if str(r) != want:
+        raise AssertionError("%s proposed %r (width %d); expected %r" % (what, str(r), len(str(r)), want))
+    if r.value != nt or not vlib.valid_tree(TAR_GRAMMAR, r, allow_open=False):
+        raise AssertionError("%s proposed a replacement that is not a derivation tree for %s (root %s, string %r)" % (what, nt, r.value, str(r)[:40]))
+    return True
+
+
+def h_just_tar(v: List[int]) -> bool:
+    """
+    pre: len(v) == 3 and 0 <= v[0] < 5 and 0 <= v[1] < 11 and 0 <= v[2] < 6
+    pre: TARKIND < 0 or v[0] == TARKIND
+    post: _
+    """
+    v = [int(x) for x in vlib.realize(v)]
+    return vlib.untraced(_tar_field, v[0], v[1], v[2])
+
+
 # ---------------------------------------------------------------- count on closed trees
 
 COUNTG = {"<start>": ["<list>"], "<list>": ["<item>,<list>", "<item>"], "<item>": ["(<item>|<item>)", "i", "<opt>"], "<opt>": ["o", ""]}
